@@ -157,7 +157,7 @@ func (w *wireCtx) do(req *http.Request) (*http.Response, error) {
 	}
 	// what a server would see: a fresh request with the same line, headers and body
 	sreq := req.Clone(req.Context())
-	sreq.Body = io.NopCloser(bytes.NewReader(body))
+	sreq.Body = newNetBody(body, "request")
 	sreq.RequestURI = req.URL.RequestURI()
 	if req.ContentLength == 0 && len(body) > 0 {
 		// the client did not know the length: it goes out chunked and a server sees -1
@@ -187,7 +187,7 @@ func (w *wireCtx) do(req *http.Request) (*http.Response, error) {
 		status = 200
 	}
 	w.rec.Emit(Event{"ev": "ServerDone", "case": w.caseID, "status": status, "writes": cw.writes, "hdr": map[string][]string(hdr), "body": b64(cw.body.Bytes())})
-	return &http.Response{StatusCode: status, Status: fmt.Sprint(status), Header: hdr, Body: io.NopCloser(bytes.NewReader(cw.body.Bytes())), Request: req,
+	return &http.Response{StatusCode: status, Status: fmt.Sprint(status), Header: hdr, Body: newNetBody(cw.body.Bytes(), "response"), Request: req,
 		ContentLength: int64(cw.body.Len())}, nil
 }
 
@@ -301,7 +301,7 @@ func projectResponse(rv reflect.Value) AVal {
 	if rv.Kind() == reflect.Struct {
 		if f := rv.FieldByName("Body"); f.IsValid() && f.Kind() == reflect.Interface && !f.IsNil() {
 			if rd, ok := f.Interface().(io.Reader); ok {
-				bs, _ := io.ReadAll(rd)
+				bs, rerr := io.ReadAll(rd)
 				cp := reflect.New(rv.Type()).Elem()
 				cp.Set(rv)
 				rc := io.NopCloser(bytes.NewReader(bs))
@@ -312,6 +312,10 @@ func projectResponse(rv reflect.Value) AVal {
 				for i := range a.F {
 					if a.F[i].N == "body" {
 						a.F[i].V = AVal{T: "leaf", S: "r:" + b64(bs)}
+						if rerr != nil {
+							// the body the client handed over cannot be read (closed before it was returned)
+							a.F[i].V = AVal{T: "leaf", S: "r:!" + rerr.Error()}
+						}
 					}
 				}
 				return a
